@@ -6,11 +6,32 @@ agree : the reader model (SaModel/Read/Reader.lean, `Fixes.all`) reproduces cons
 spec C17 (independent of the reader model): no panic, and an `Ok` result is either what the Arrow reading
 rules (`Spec.decode`) assign to that slot of the view *as it stands* (then nothing foreign can have been
 returned: `deserialize_any` results are compared with `toD` of the decoded value), or it equals what the
-uncorrupted view gives for the same read (the corruption was not touched).  The second escape is classified with the
-footprint relation of `SaModel.Props.C17.untouched_ok`: tag `untouched-justified` when `touchEq ty base view idx` holds
-(the corrupted view agrees with the base view on everything the read looks at, so by the theorem the result HAS to be
-the base result), `untouched-coincidence` when the results are equal although the footprint differs (possible
-legitimately: e.g. a corrupted offset pair that designates equal bytes) — both pass.
+uncorrupted view gives for the same read AND the corruption was not touched: `touchEq ty base view idx` holds (the
+corrupted view agrees with the base view on everything the read looks at; by `SaModel.Props.C17.untouched_ok` the
+result HAS to be the base result) — tag `untouched-justified`.
+
+An `Ok` whose slot `Spec.decodeAt` rejects (or reads differently) and that has to visit something outside the ranges
+the view designates — `touchOK` is false: a row / element / key / union slot beyond the length of its array, or, at
+a leaf, an offset pair outside the data buffer, a view descriptor that names a buffer the view does not have or a
+range outside that buffer, a FixedSizeBinary row outside the data — is a violation whatever the uncorrupted view
+gives there (`C17/out-of-range/…`; `readRecord_touch_in_range`: no successful read of the model does that).
+
+`untouched-coincidence` (an `Ok` equal to the base read although the FOOTPRINT differs and `Spec.decodeAt` rejects
+the slot or reads it differently) is no longer an escape.  It would need a reader that LOOKS at the corrupted datum
+(`touchEq` is the exact footprint of a successful read), accepts it although the Arrow reading rejects it, and still
+produces the base value.  The readers accept more than `Spec.decodeAt` in exactly two places, both recorded known
+findings: (a) typed reads of struct / list / map columns into non-Option targets never consult the container's
+validity (#23) — not part of the footprint of such a read, so a corruption there is `untouched-justified`, never a
+coincidence; (b) an empty element range of a list / map column beyond its child — the offset pair IS in the
+footprint, but a single corruption of one offset of an empty pair makes it non-empty or decreasing (another value
+or an error), both offsets of one pair are never corrupted together (the pair generator never takes two sites on
+one path), and a corruption of the CHILD that leaves the pair alone has an equal footprint (justified).  With two
+corruptions (thorough tier) one of them can be of kind (a) / (b) and the other one looked at but without
+influence on the value (a byte of a field that is skipped through `IgnoredAny`, an offset pair moved over equal
+bytes): such a case is classified by what makes `Spec.decodeAt` reject the slot, i.e. it is reported as the known
+finding `C17/validity-not-consulted` / `C17/empty-range-beyond-child`, exactly as when the result differs from the
+base read.  Everything else is `C17/foreign/…` (tag `untouched-coincidence` kept for the evidence).  Quick and
+thorough tier, seeds 1–3, unchanged tree: the tag never occurs.
 Correspondence also covers the theorem itself: where `touchEq` holds, the implementation's outcome on the corrupted
 view must be its outcome on the base view (same class, same value), for every read, Ok or not. -/
 namespace Driver.Suites.Corrupt
@@ -93,18 +114,20 @@ def handle (j : Json) : Except String Verdict := do
         | .error _ => false
       let untouched := baseImpls.getD k Json.null == impl
       if untouched then nUntouched := nUntouched + 1
-      -- the escape "equals the read on the uncorrupted view" is used: justified by the theorem, or a coincidence
+      -- the escape "equals the read on the uncorrupted view": only where the theorem justifies it (equal footprint)
+      let justified := untouched && fpEq
       if !consistent && untouched then
         tags := (if fpEq then "untouched-justified" else "untouched-coincidence") :: tags
-      -- an `Ok` that had to visit a slot beyond the length of the array it belongs to (independent of what the
-      -- uncorrupted view would have given there: the elements come from outside the ranges the view designates)
+      -- an `Ok` that had to visit a slot beyond the length of the array it belongs to, or bytes outside the buffer
+      -- its offsets / descriptor designate (independent of what the uncorrupted view would have given there: the
+      -- elements / bytes come from outside the ranges the view designates)
       if !consistent && !r.bulk && !(touchOK r.ty rec_ r.idx) then
         return { agree := (match compareRead m impl with | .agree => true | _ => false),
                  spec := [("C17", "fail"), ("C16", "pass")],
                  sig := s!"C17/out-of-range/{attributeRead fm col r impl}/{fam}/{targetKind r.ty}",
                  tags := tags,
-                 why := s!"read #{k} (idx {r.idx}, {targetKind r.ty}) returns Ok although it has to visit a slot beyond the length of the array it belongs to ({cclass}): {impl.compress.take 240}" }
-      if !consistent && !untouched then
+                 why := s!"read #{k} (idx {r.idx}, {targetKind r.ty}) returns Ok although it has to visit a slot beyond the length of the array it belongs to, or bytes outside the buffer that its offsets / view descriptor designate ({cclass}): {impl.compress.take 240}" }
+      if !consistent && !justified then
         -- known finding #23: typed reads of struct / list / map into non-Option targets never consult validity
         let typedIgnoresValidity := (match r.ty with | .any => false | _ => true) &&
           (Spec.decodeAt (stripContainerValidity rec_) r.idx).isOk
@@ -124,7 +147,9 @@ def handle (j : Json) : Except String Verdict := do
                  spec := [("C17", "fail"), ("C16", "pass")],
                  sig := s!"C17/foreign/{attributeRead fm col r impl}/{fam}/{targetKind r.ty}",
                  tags := tags,
-                 why := s!"read #{k} (idx {r.idx}, {targetKind r.ty}) returns Ok although the slot is inconsistent ({cclass}) and differs from the uncorrupted read: {impl.compress.take 240}" }
+                 why := s!"read #{k} (idx {r.idx}, {targetKind r.ty}) returns Ok although the slot is inconsistent ({cclass}) and " ++
+                   (if untouched then "equals the uncorrupted read only by coincidence (the read looks at the corrupted data: touchEq is false)"
+                    else "differs from the uncorrupted read") ++ s!": {impl.compress.take 240}" }
     else
       nErr := nErr + 1
     -- correspondence
